@@ -56,3 +56,13 @@ man = {
 with open(os.path.join(VERIF, "MANIFEST.json"), "w") as f:
     json.dump(man, f, indent=1)
 print("MANIFEST.json: %d checks, %d not claimed" % (len(checks), len(na)))
+
+# the pinned copies of the generated model (DESIGN §8.8) must be what the translator reads out of /repo now
+import subprocess
+p = subprocess.run(["/venv/bin/python", os.path.join(HERE, "translate.py")], capture_output=True, text=True)
+import common
+stale = common.gen_differs(sorted(common.GEN_FILES.values()))
+missing = [n for n in common.GEN_FILES.values() if not os.path.exists(os.path.join(common.PINNED, n))]
+if stale or missing:
+    print("WARNING: lean/pinned_gen is stale (%s) — run harness/translate.py --pin on the clean /repo tree" % (stale + missing))
+    sys.exit(1)
